@@ -150,7 +150,8 @@ func goSliceDelete(obj *object, name string, throw bool) bool {
 			indexValue.Set(reflect.Zero(goObj.value.Type().Elem()))
 			return true
 		}
-		return obj.runtime.typeErrorResult(throw)
+		// no such property (8.12.7 step 2)
+		return true
 	}
 
 	return obj.delete(name, throw)
